@@ -1,3 +1,16 @@
+import TantivyModel.Proofs.SSTable.StoreLocate
+import TantivyModel.Proofs.SSTable.StoreFile
+import TantivyModel.Proofs.SSTable.SearchOrd
+import TantivyModel.Proofs.SSTable.ValueFile
+import TantivyModel.Proofs.SSTable.StoreGroup
+import TantivyModel.Proofs.SSTable.BitPacker
+import TantivyModel.Proofs.SSTable.BitStream
+import TantivyModel.Proofs.SSTable.Bounds
+import TantivyModel.Proofs.SSTable.WriterBlocks
+import TantivyModel.Proofs.SSTable.StateStack
+import TantivyModel.Proofs.SSTable.Framing
+import TantivyModel.Proofs.SSTable.LocateOrd
+import TantivyModel.Proofs.SSTable.Inverse
 import TantivyModel.Proofs.SSTable.AddrStoreProofs
 import TantivyModel.Proofs.SSTable.Prefix
 import TantivyModel.Proofs.SSTable.MergeProofs
@@ -260,7 +273,7 @@ theorem C15_block_pruning_sound {σ} (A : Automaton σ) (hA : A.CanMatchSound) (
     (hacc : A.accepts key = true) : canBlockMatch A prevSep sep = true :=
   canBlockMatch_sound A hA prevSep sep key h1 h2 hacc
 
-theorem search_eq_filter {σ V} (A : Automaton σ) (m : Assoc V) (lo hi : Bound) :
+theorem C15_search_eq_filter {σ V} (A : Automaton σ) (m : Assoc V) (lo hi : Bound) :
     search A m lo hi = m.filter (fun e => passes A lo hi e.1) := by
   unfold search range passes
   rw [List.filter_filter]
@@ -286,7 +299,7 @@ theorem C15_automaton_stream {σ V} (A : Automaton σ) (hA : A.CanMatchSound) (b
         (fun p => matchLo lo p.1.1 && matchHi hi p.1.1 && A.accepts p.1.1)).map
         (fun p => (p.2, p.1.1, p.1.2)) := by
   have v := build_view blockLen m hs
-  rw [search_eq_filter]
+  rw [C15_search_eq_filter]
   unfold Dict.search
   rcases searchBlocks_pruned A hA blockLen m hs lo hi with hp | ⟨hnil, hnone⟩
   · have hflat : ((build blockLen m).blockList.map (·.entries)).flatten = m := v.flat
@@ -422,6 +435,461 @@ theorem C15_addr_binary_search (f : Nat → Nat) (t n : Nat)
    the bit-level layout (`BitPacker::write` / `extract_bits`), the 36-byte metadata record, and
    `Store.locateOrd = Dict.locateOrd` as a whole; `locate_with_key` goes through the FST, which is
    a parameter with the contract "first key ≥ k". -/
+
+/-! ## ordinals and keys are inverse; order across block boundaries -/
+
+/-- `ord_to_term ∘ term_ord = id` and the converse, on the dictionary built from any sorted map at
+any block length: `term_ord(k) = Some(i)` iff `ord_to_term(i)` yields `k` -/
+theorem C15_ord_term_inverse {V} (blockLen : Nat) (m : Assoc V) (hs : SortedMap m) (k : Key) (i : Nat) :
+    (build blockLen m).termOrd k = some i ↔ (build blockLen m).ordToTerm i = some k := by
+  rw [refine_termOrd blockLen m hs k, (refine_ordToTerm blockLen m i).1]
+  exact spec_ord_inverse m hs k i
+
+/-- the only order check for the first key of a block (`previous_key` was cleared by the flush) is
+the assert of `find_shorter_str_in_between`, run by `insert_key` against the last key of the last
+closed block. With both facts extracted from the source (`separatorGuard`), the writer rejects
+every key that is not strictly above the last key of the previous block — whatever the block
+length and the rest of the state. (Seeded change C15-D removes that assert: `separatorGuard`
+becomes false and this theorem, `C15_insert_accepts_iff` and `C15_insert_order_partial` stop
+checking.) -/
+theorem C15_block_boundary_rejects (blockLen : Nat) (s : WState) (l k : Key)
+    (hstart : s.blockStart = true) (hlast : s.lastBlockKey = some l) (hnot : lexLt l k = false) :
+    s.insert blockLen k = none := by
+  have hsg : separatorGuard = true := by decide
+  unfold WState.insert WState.sepOk
+  simp [hstart, hsg, hlast, hnot]
+
+/-- and within a block (previous key non-empty) the asserted `increasing_keys` expression — its
+shape and the assert are extracted (`increasingGuard`) — rejects every key that is not strictly
+above the previous one -/
+theorem C15_within_block_rejects (blockLen : Nat) (s : WState) (k : Key) (hp : s.prev ≠ [])
+    (hnot : lexLt s.prev k = false) : s.insert blockLen k = none := by
+  have hig : increasingGuard = true := by decide
+  have hne : increasingKeys s.prev k ≠ some true := by
+    intro h
+    rw [(increasingKeys_iff s.prev k hp).mp h] at hnot
+    cases hnot
+  unfold WState.insert incOk
+  simp [hig, hne]
+
+example : ({ blockStart := true, lastBlockKey := some [5] } : WState).insert 0 [5] = none ∧
+    ({ blockStart := true, lastBlockKey := some [5] } : WState).insert 0 [4, 9] = none ∧
+    (({ blockStart := true, lastBlockKey := some [5] } : WState).insert 0 [5, 0]).isSome = true := by decide
+example : ({ prev := [5], blockStart := false } : WState).insert 4000 [5] = none := by decide
+example : (build 2 [(([1] : Key), 10), ([1, 2], 20), ([1, 2, 3], 30), ([2], 40)]).termOrd [1, 2, 3] = some 2 ∧
+    (build 2 [(([1] : Key), 10), ([1, 2], 20), ([1, 2, 3], 30), ([2], 40)]).ordToTerm 2 = some [1, 2, 3] := by decide
+
+/-- `binary_search_ord` of the v3 index as a whole (store blocks of `B = STORE_BLOCK_LEN` addresses;
+outer binary search over the store blocks' reference ordinals; the FAST PATH when `ord` is exactly
+a reference ordinal, returning block id `g * B`; `bisect_for_ord` inside the store block
+otherwise) equals the abstract search the routing theorems use — "the last block whose first
+ordinal is ≤ ord" (`Dict.locateOrd`) — for every strictly increasing list of first ordinals and
+every store-block geometry with all store blocks but the last full. (Seeded change C15-C returns
+the address of block `g` instead of block `g * B` on the fast path; the model keeps the two id
+spaces apart and the harness cross-decodes the real index bytes against it.) -/
+theorem C15_addr_locate_ord (B G : Nat) (bl : Nat → Nat) (ords : List Nat) (ord : Nat)
+    (hG : 0 < G) (hfull : ∀ g, g + 1 < G → bl g + 1 = B) (hlast : bl (G - 1) + 1 ≤ B)
+    (hn : ords.length = (G - 1) * B + bl (G - 1) + 1)
+    (hs : ords.Pairwise (· < ·)) (h0 : ords.getD 0 0 ≤ ord) :
+    locateOrdGen B G bl (fun id => ords.getD id 0) ord
+      = (ords.filter (fun x => decide (x ≤ ord))).length - 1 := by
+  have hget : ∀ i, i < ords.length → ords.getD i 0 = ords[i]! := by
+    intro i hi
+    simp [List.getD_eq_getElem?_getD, List.getElem?_eq_getElem hi, hi]
+  have hmono : ∀ a b, a < b → b < ords.length → ords.getD a 0 < ords.getD b 0 := by
+    intro a b hab hb
+    have ha : a < ords.length := by omega
+    have := (List.pairwise_iff_getElem.mp hs) a b ha hb hab
+    simpa [List.getD_eq_getElem?_getD, List.getElem?_eq_getElem ha, List.getElem?_eq_getElem hb] using this
+  obtain ⟨h1, h2, h3⟩ := locateOrdGen_spec B G bl (fun id => ords.getD id 0) ord ords.length hG hfull
+    hlast hn hmono h0
+  have := filter_le_length ords ord _ hs h1 h2 h3
+  omega
+
+example : locateOrdGen 2 3 (fun g => if g = 2 then 0 else 1) (fun id => [0, 3, 5, 9, 12].getD id 0) 5 = 2 ∧
+    locateOrdGen 2 3 (fun g => if g = 2 then 0 else 1) (fun id => [0, 3, 5, 9, 12].getD id 0) 11 = 3 ∧
+    locateOrdGen 2 3 (fun g => if g = 2 then 0 else 1) (fun id => [0, 3, 5, 9, 12].getD id 0) 12 = 4 := by decide
+
+/-- end to end for ordinal lookups: on the dictionary the writer builds from any sorted map (more
+than one block), the v3 `binary_search_ord` — run over that dictionary's own first ordinals, for
+every store-block geometry with all store blocks but the last full — finds exactly the block
+`Dict.locateOrd` uses, so `C15_ops_refine_ord_to_term`, `C15_ops_refine_sorted_ords` and the limit
+part of `C15_ops_refine_range` hold for the two-level search with its fast path -/
+theorem C15_locate_ord_dict {V} (blockLen : Nat) (m : Assoc V) (hs : SortedMap m)
+    (hmulti : (build blockLen m).single = false) (B G : Nat) (bl : Nat → Nat) (ord : Nat)
+    (hG : 0 < G) (hfull : ∀ g, g + 1 < G → bl g + 1 = B) (hlast : bl (G - 1) + 1 ≤ B)
+    (hn : (build blockLen m).blocks.length = (G - 1) * B + bl (G - 1) + 1) :
+    locateOrdGen B G bl (fun id => ((build blockLen m).blocks.map (·.firstOrd)).getD id 0) ord
+      = (build blockLen m).locateOrd ord := by
+  obtain ⟨h1, h2, h3⟩ := build_firstOrds blockLen m hs hmulti ord
+  rw [h3]
+  exact C15_addr_locate_ord B G bl _ ord hG hfull hlast (by simpa using hn) h1 (by omega)
+
+/-! ## value blocks and file framing -/
+
+/-- value codecs: a block of non-decreasing u64 values (`MonotonicU64SSTable`) and a block of
+consecutive ranges (`RangeSSTable`) read back exactly, and the reader returns exactly the bytes
+that follow the value block (the key entries) -/
+theorem C15_value_roundtrip (rest : List UInt8) :
+    (∀ vals : List Nat, MonoFrom 0 vals → loadU64Mono (serU64Mono vals ++ rest) = (vals, rest)) ∧
+    (∀ rs : List (Nat × Nat), Contig rs → MonoFrom 0 (rangeBounds rs) →
+      loadRange (serRange rs ++ rest) = (rs, rest)) :=
+  ⟨fun vals h => loadU64Mono_ser vals rest h, fun rs hc hm => loadRange_ser rs rest hc hm⟩
+
+/-- one block as it lies in the file (value block, then front-coded keys) decodes to its values
+and its keys -/
+theorem C15_block_payload_roundtrip (vals : List Nat) (ks : List Key) (hv : MonoFrom 0 vals)
+    (hk : StrictInc ks) :
+    (loadU64Mono (serU64Mono vals ++ encodeBlockKeys ks)).1 = vals ∧
+    decodeBlockKeys (loadU64Mono (serU64Mono vals ++ encodeBlockKeys ks)).2 = ks := by
+  rw [loadU64Mono_ser vals _ hv]
+  exact ⟨rfl, decodeBlockKeys_encode ks hk⟩
+
+/-- the data part of a file — blocks cut at any block length, each framed as
+`u32 (len + 1) | compress byte 0 | payload`, then the end marker — read by `read_block` and decoded
+block by block gives back the key list, whatever follows the end marker (index, footer) -/
+theorem C15_file_roundtrip (blockLen : Nat) (ks : List Key) (tail : List UInt8) (hs : StrictInc ks)
+    (hsize : ∀ b ∈ encodeBlocks blockLen ks, b.length + 1 < 4294967296) :
+    (readBlocks ((encodeBlocks blockLen ks).length + 1)
+        (frameBlocks (encodeBlocks blockLen ks) ++ tail)).map
+      (fun bs => ((bs.filterMap isPlain).map decodeBlockKeys).flatten) = some ks := by
+  have hne : ∀ p ∈ encodeBlocks blockLen ks, p ≠ [] ∧ p.length + 1 < 4294967296 := by
+    intro p hp
+    refine ⟨?_, hsize p hp⟩
+    unfold encodeBlocks at hp
+    obtain ⟨b, hb, rfl⟩ := List.mem_map.mp hp
+    have hbne : b ≠ [] := cutBlocks_nonempty id blockLen [] 0 [] ks b hb
+    have := encodeEntries_length_ge [] b
+    intro e
+    unfold encodeBlockKeys at e
+    rw [e] at this
+    have : b.length = 0 := by simpa using this
+    exact hbne (List.eq_nil_of_length_eq_zero this)
+  have h := readBlocks_frame (encodeBlocks blockLen ks) tail _ (Nat.lt_succ_self _) hne
+  cases hr : readBlocks ((encodeBlocks blockLen ks).length + 1)
+      (frameBlocks (encodeBlocks blockLen ks) ++ tail) with
+  | none => rw [hr] at h; simp at h
+  | some bs =>
+    rw [hr] at h
+    simp only [Option.map_some, Option.some.injEq] at h ⊢
+    have hfm : bs.filterMap isPlain = encodeBlocks blockLen ks := by
+      have : ∀ (l : List RawBlock) (ps : List (List UInt8)), l.map isPlain = ps.map some → l.filterMap isPlain = ps := by
+        intro l
+        induction l with
+        | nil => intro ps h; cases ps <;> simp_all
+        | cons a r ih =>
+          intro ps h
+          cases ps with
+          | nil => simp at h
+          | cons p ps' =>
+            simp only [List.map_cons, List.cons.injEq] at h
+            simp [List.filterMap_cons, h.1, ih ps' h.2]
+      exact this bs _ h
+    rw [hfm]
+    exact C15_delta_roundtrip blockLen ks hs
+
+example : MonoFrom 0 [3, 3, 10] ∧ Contig [(5, 7), (7, 7), (7, 20)] ∧ MonoFrom 0 (rangeBounds [(5, 7), (7, 7), (7, 20)]) := by
+  simp [MonoFrom, Contig, rangeBounds]
+example : frameBlocks [[16, 17, 33, 18, 19, 17, 20]] = [8, 0, 0, 0, 0, 16, 17, 33, 18, 19, 17, 20, 0, 0, 0, 0] := by decide
+
+/-! ## the streamer's automaton state stack -/
+
+/-- `Streamer::advance` as the code runs it — on the front-coded `(keep, suffix)` entries, with
+`key.truncate(keep)`, `states.truncate(keep + 1)` and one pushed automaton state per suffix byte,
+done before the bound tests so the stack stays valid for entries skipped below the lower bound,
+`key`/`states` persisting across block boundaries — equals the streamer over the decoded entries
+that runs the automaton from its start state on every key: for every automaton, bounds, block
+list and starting ordinal. (Seeded change C15-B moves the stack update behind the bound tests.) -/
+theorem C15_streamer_state_stack {σ V} (A : Automaton σ) (lo hi : Bound) (bs : List (Assoc V))
+    (passed : Bool) (ord : Nat) :
+    scanSearchDelta A lo hi passed ord [] [A.start] (fileTriples bs)
+      = scanSearch A lo hi passed ord bs.flatten := by
+  have h0 : [A.start] = statesOf A A.start [] := by simp [statesOf, pushStates]
+  rw [h0]
+  exact scanSearchDelta_eq A lo hi _ _ [] passed ord (encodes_file bs [])
+
+/-- hence the automaton search through the byte-level mechanism equals the block-model search of
+`C15_automaton_stream`, on every dictionary -/
+theorem C15_search_delta {σ V} (d : Dict V) (A : Automaton σ) (lo hi : Bound) :
+    d.searchDelta A lo hi = d.search A lo hi := searchDelta_eq d A lo hi
+
+example : scanSearchDelta (prefixAutomaton [1]) .unbounded .unbounded false 0 [] [(prefixAutomaton [1]).start]
+      (fileTriples [[(([0, 5] : Key), 1), ([1], 2)], [([1, 7], 3), ([2], 4)]])
+    = [(1, [1], 2), (2, [1, 7], 3)] := by decide
+
+/-! ## writer state and block layout; per-round merge tables; corollaries -/
+
+/-- one writer: the state machine that performs the order checks (`previous_key`, block bytes,
+block start, last key of the last closed block) closes its blocks exactly where the block layout
+used by `build` / `C15_delta_roundtrip` does -/
+theorem C15_writer_blocks (blockLen : Nat) (ks : List Key) :
+    writerBlocks blockLen {} [] ks = blocksOf id blockLen ks :=
+  writerBlocks_eq blockLen {} [] ks
+
+/-- the per-round tables of the heap merge (columnar `TermMerger::advance` + `matching_segments`):
+round `j` reports, for every input, the old ordinal of the `j`-th merged key in that input, `none`
+if the input does not hold it — i.e. the transposed `C15_term_ordinal_remap` tables -/
+theorem C15_merge_round_tables {V} (comb : List V → V) (ms : List (Assoc V))
+    (hs : ∀ m ∈ ms, SortedMap m) :
+    kmergeOrds (totalLen ms) (ms.map (fun _ => 0)) ms
+      = (keys (mergeSpec comb ms)).map (fun k => ms.map (fun m => termOrd m k)) := by
+  rw [kmergeOrds_eq comb (totalLen ms) (ms.map (fun _ => 0)) ms hs (Nat.le_refl _) (by simp)]
+  apply List.map_congr_left
+  intro k _
+  unfold roundRow
+  rw [List.zip_map_left, List.map_map]
+  have : ∀ l : List (Assoc V), (l.zip l).map ((fun p : Nat × Assoc V => (termOrd p.2 k).map (· + p.1)) ∘
+      Prod.map (fun _ => 0) id) = l.map (fun m => termOrd m k) := by
+    intro l
+    induction l with
+    | nil => rfl
+    | cons a r ih =>
+      simp only [List.zip_cons_cons, List.map_cons, Function.comp, Prod.map, id, Nat.add_zero]
+      congr 1
+      · cases termOrd a k <;> simp
+  exact this ms
+
+/-- a prefix stream of the dictionary is a (limited) prefix of the keys starting with `p` -/
+theorem C15_ops_refine_prefix {V} (blockLen : Nat) (m : Assoc V) (hs : SortedMap m) (p : Key)
+    (limit : Option Nat) (out : List (Nat × Key × V))
+    (h : (build blockLen m).stream (prefixBounds p).1 (prefixBounds p).2 limit = some out) :
+    out.map (fun e => (e.2.1, e.2.2)) <+: prefixed m p ∧
+    (match limit with
+     | none => out.map (fun e => (e.2.1, e.2.2)) = prefixed m p
+     | some l => min l (prefixed m p).length ≤ out.length) := by
+  have := C15_ops_refine_range blockLen m hs (prefixBounds p).1 (prefixBounds p).2 limit
+  rw [h] at this
+  obtain ⟨_, hlim⟩ := this
+  unfold IsLimitedRange at hlim
+  rw [C15_prefix_stream] at hlim
+  refine ⟨hlim.1, ?_⟩
+  cases limit with
+  | none => exact hlim.2
+  | some l => simpa using hlim.2
+
+/-- range streams through the front-coded entries (`AlwaysMatch` never looks at its state) -/
+theorem C15_range_stream_delta {V} (lo hi : Bound) (bs : List (Assoc V)) (ord : Nat) :
+    scanSearchDelta allAut lo hi false ord [] [allAut.start] (fileTriples bs)
+      = scanStream lo hi false ord bs.flatten := by
+  rw [C15_streamer_state_stack, ← scanStream_eq_scanSearch allAut allAut_accepts]
+
+/-- columnar `DictionaryBuilder::serialize`: terms get unordered ids in first-seen order, the
+dictionary stores them sorted, and `TermIdMapping` sends an unordered id to the rank of its term:
+the term at that rank is the original term, and distinct terms get distinct ranks -/
+theorem C15_columnar_term_id_mapping (terms : List Key) (uid : Nat) (t : Key)
+    (h : terms[uid]? = some t) :
+    (unionKeys [terms])[ordOf (unionKeys [terms]) t]? = some t ∧
+    (∀ (uid' : Nat) (t' : Key), terms[uid']? = some t' → t' ≠ t →
+      ordOf (unionKeys [terms]) t' ≠ ordOf (unionKeys [terms]) t) := by
+  have hsorted := unionKeys_sorted [terms]
+  have hmem : ∀ x, x ∈ terms → x ∈ unionKeys [terms] := fun x hx =>
+    (mem_unionKeys [terms] x).mpr ⟨terms, by simp, hx⟩
+  have ht := hmem t (List.mem_of_getElem? h)
+  refine ⟨(findIdx_ordOf _ t hsorted ht).2, ?_⟩
+  intro uid' t' h' hne heq
+  have ht' := hmem t' (List.mem_of_getElem? h')
+  have h1 := (findIdx_ordOf _ t hsorted ht).2
+  have h2 := (findIdx_ordOf _ t' hsorted ht').2
+  rw [heq, h1] at h2
+  exact hne (Option.some.inj h2).symm
+
+example : writerBlocks 2 {} [] [[1], [1, 2], [1, 2, 3], [2]] = [[[1], [1, 2]], [[1, 2, 3]], [[2]]] := by decide
+example : kmergeOrds 4 [0, 0] [[(([1] : Key), 1), ([3], 3)], [([2], 20), ([3], 30)]]
+    = [[some 0, none], [none, some 0], [some 1, some 1]] := by decide
+example : ([([5] : Key), [1], [3]])[0]? = some [5] ∧ ordOf (unionKeys [[[5], [1], [3]]]) [5] = 2 := by decide
+
+/-! ## key bounds to ordinal bounds -/
+
+/-- `Dictionary::term_bounds_to_ord` (an exact hit keeps the bound kind, a miss becomes
+`Included(next)` below / `Excluded(next)` above, `Next(u64::MAX)` past the last separator): on the
+dictionary built from any sorted map (fewer than `u64::MAX` terms), for every bound kind, the
+ordinal bounds select exactly the ordinals whose keys satisfy the key bounds -/
+theorem C15_term_bounds_to_ord {V} (blockLen : Nat) (m : Assoc V) (hs : SortedMap m)
+    (hn : m.length < U64_MAX) (lo hi : Bound) (i : Nat) (e : Key × V) (h : m[i]? = some e) :
+    (((build blockLen m).termBoundsToOrd lo hi).1.lo i && ((build blockLen m).termBoundsToOrd lo hi).2.hi i)
+      = (matchLo lo e.1 && matchHi hi e.1) := by
+  obtain ⟨h1, h2⟩ := termBoundsToOrd_spec blockLen m hs hn lo hi i e h
+  rw [h1, h2]
+
+example : (build 2 [(([1] : Key), 10), ([1, 2], 20), ([1, 2, 3], 30), ([2], 40)]).termBoundsToOrd
+      (.excl [1]) (.incl [1, 9]) = (.excl 0, .excl 3) ∧
+    (build 2 [(([1] : Key), 10), ([1, 2], 20), ([1, 2, 3], 30), ([2], 40)]).termBoundsToOrd
+      (.incl [9]) .unbounded = (.incl U64_MAX, .unbounded) := by decide
+
+/-- `Dictionary::open ∘ Writer::finish`: from the 20 trailing bytes the reader recovers the data
+region, the index region, the number of terms and the version -/
+theorem C15_open_finish (data index : List UInt8) (numTerms version : Nat)
+    (h1 : data.length < 18446744073709551616) (h2 : numTerms < 18446744073709551616)
+    (h3 : version < 4294967296) :
+    openFile (finishFile data index numTerms version) = ⟨data, index, numTerms, version⟩ :=
+  openFile_finish data index numTerms version h1 h2 h3
+
+/-- a whole file as the model writer lays it out — framed front-coded blocks, end marker, any index
+region, footer — opened and decoded block by block gives back the keys and the term count -/
+theorem C15_whole_file_roundtrip (blockLen : Nat) (ks : List Key) (index : List UInt8)
+    (hs : StrictInc ks) (hsize : ∀ b ∈ encodeBlocks blockLen ks, b.length + 1 < 4294967296)
+    (hdata : (frameBlocks (encodeBlocks blockLen ks)).length < 18446744073709551616)
+    (hn : ks.length < 18446744073709551616) :
+    let f := openFile (finishFile (frameBlocks (encodeBlocks blockLen ks)) index ks.length Gen.SSTABLE_VERSION)
+    f.numTerms = ks.length ∧ f.version = Gen.SSTABLE_VERSION ∧ f.index = index ∧
+    (readBlocks ((encodeBlocks blockLen ks).length + 1) f.data).map
+      (fun bs => ((bs.filterMap isPlain).map decodeBlockKeys).flatten) = some ks := by
+  intro f
+  have hf : f = ⟨frameBlocks (encodeBlocks blockLen ks), index, ks.length, Gen.SSTABLE_VERSION⟩ :=
+    openFile_finish _ _ _ _ hdata hn (by decide)
+  rw [hf]
+  refine ⟨rfl, rfl, rfl, ?_⟩
+  have := C15_file_roundtrip blockLen ks [] hs hsize
+  simpa using this
+
+example : openFile (finishFile [8, 0, 0, 0, 0, 16, 17, 33, 18, 19, 17, 20, 0, 0, 0, 0] [0, 0, 0, 0, 0, 0, 0, 0] 3 3)
+    = ⟨[8, 0, 0, 0, 0, 16, 17, 33, 18, 19, 17, 20, 0, 0, 0, 0], [0, 0, 0, 0, 0, 0, 0, 0], 3, 3⟩ := by decide
+
+/-- bit level of the block-address store: `extract_bits` is "bits `[addr, addr + nbits)` of the
+little-endian bit stream" for every buffer, address and width ≤ 57 (8-byte window, shift, mask;
+the code asserts ≤ 56) -/
+theorem C15_extract_bits_spec (data : List UInt8) (addr nbits : Nat) (h : nbits ≤ 57) :
+    extractBits data addr nbits = (streamNat data / 2 ^ addr) % 2 ^ nbits :=
+  extractBits_spec data addr nbits h
+
+/-- hence it reads back field `j` of ANY byte buffer that denotes a sequence of `(value, width)`
+fields packed from bit 0 upwards (what `BitPacker::write` produces: value `v` of width `n` lands at
+the running bit position), whatever follows the fields -/
+theorem C15_extract_bits_field (data : List UInt8) (fs : List (Nat × Nat)) (above : Nat)
+    (hstream : streamNat data = packNat fs + 2 ^ bitPos fs fs.length * above)
+    (hfit : ∀ f ∈ fs, f.1 < 2 ^ f.2) (j : Nat) (f : Nat × Nat) (hj : fs[j]? = some f) (hw : f.2 ≤ 57) :
+    extractBits data (bitPos fs j) f.2 = f.1 := by
+  rw [extractBits_spec data _ _ hw, hstream]
+  exact packNat_field fs hfit j f hj above
+
+example : streamNat [0xB5, 0x01] = packNat [(5, 3), (22, 5), (1, 2)] ∧
+    extractBits [0xB5, 0x01] (bitPos [(5, 3), (22, 5), (1, 2)] 1) 5 = 22 := by decide
+
+/-- `BitPacker::write`* then `flush` (64-bit mini buffer, values split across buffer boundaries,
+only the used bytes flushed): for every sequence of `(value, width)` fields with `value < 2^width`,
+`width ≤ 64`, the bytes denote exactly the fields packed from bit 0 upwards — so, with
+`C15_extract_bits_field`, `extract_bits` reads every field of a packed store block back -/
+theorem C15_bitpacker (fs : List (Nat × Nat)) (hfit : ∀ f ∈ fs, f.1 < 2 ^ f.2 ∧ f.2 ≤ 64) :
+    streamNat (bitPack fs) = packNat fs ∧
+    ∀ j f, fs[j]? = some f → f.2 ≤ 57 → extractBits (bitPack fs) (bitPos fs j) f.2 = f.1 := by
+  have hv := bitPack_val fs hfit
+  refine ⟨hv, fun j f hj hw => ?_⟩
+  exact C15_extract_bits_field (bitPack fs) fs 0 (by rw [hv]; simp) (fun g hg => (hfit g hg).1) j f hj hw
+
+example : bitPack [(5, 3), (22, 5), (1, 2)] = [0xB5, 0x01] ∧
+    bitPack [(1, 60), (255, 8), (3, 2)] = [1, 0, 0, 0, 0, 0, 0, 240, 63] := by decide
+
+/-- a whole store block of the block-address store, bytes included: the fields
+`BlockAddrStoreWriter::flush_block` computes (start and first-ordinal deviations from the linear
+predictions, shifted by `2^(nbits-1)`, then the final end) bit-packed by `BitPacker`, read by
+`BlockAddrBlockMetadata::deserialize_block_addr` (`extract_bits` at `num_bits * inner_offset`, the
+reader's bounds check, `reference + extracted + slope * i - shift`): block `i` of the store block
+comes back with its first ordinal, its start offset and the start of the next block as its end —
+for every slope and every width that fits the deviations (`C15_addr_codec_roundtrip` shows the
+widths `find_best_slope` picks do) -/
+theorem C15_store_block_get (rs rb os ob : Nat) (ref : BlockAddr) (more : List BlockAddr)
+    (lastStop : Nat) (g : GroupFits rs rb os ob ref more lastStop) (i : Nat) (hi : i ≤ more.length) :
+    (groupMeta rs rb os ob ref more).get (bitPack (groupFields rs rb os ob ref more lastStop)) i
+      = some ⟨((ref :: more).getD i ref).firstOrd, ((ref :: more).getD i ref).start,
+              startAt more lastStop i⟩ :=
+  group_get rs rb os ob ref more lastStop g i hi
+
+example : (groupMeta 100 5 10 3 ⟨7, 1000, 1090⟩ [⟨16, 1090, 1200⟩, ⟨27, 1200, 1310⟩]).get
+      (bitPack (groupFields 100 5 10 3 ⟨7, 1000, 1090⟩ [⟨16, 1090, 1200⟩, ⟨27, 1200, 1310⟩] 1310)) 1
+    = some ⟨16, 1090, 1200⟩ := by decide
+
+/-- the same with values: a whole data region of a `MonotonicU64SSTable` — entries cut into blocks
+at any block length, each block written as value block (count, deltas) + front-coded keys,
+framed, end marker — read by `read_block` and decoded block by block gives back every key with its
+value -/
+theorem C15_u64_file_roundtrip (blockLen : Nat) (m : Assoc Nat) (tail : List UInt8) (hs : SortedMap m)
+    (hv : (m.map (·.2)).Pairwise (· ≤ ·))
+    (hsize : ∀ b ∈ blocksOf (fun e : Key × Nat => e.1) blockLen m, (payloadU64 b).length + 1 < 4294967296) :
+    (readBlocks ((blocksOf (fun e : Key × Nat => e.1) blockLen m).length + 1)
+        (frameBlocks ((blocksOf (fun e : Key × Nat => e.1) blockLen m).map payloadU64) ++ tail)).map
+      (fun bs => ((bs.filterMap isPlain).map decodePayloadU64).flatten) = some m :=
+  u64_file_roundtrip blockLen m tail hs hv hsize
+
+example : decodePayloadU64 (payloadU64 [(([1] : Key), 3), ([1, 2], 3), ([2], 10)]) = [([1], 3), ([1, 2], 3), ([2], 10)] := by
+  apply decodePayloadU64_payload
+  · exact (strictIncB_iff _).mp (by decide)
+  · decide
+
+example : (build 0 [(([1] : Key), 10), ([2], 20), ([3], 30), ([4], 40), ([5], 50)]).single = false ∧
+    (build 0 [(([1] : Key), 10), ([2], 20), ([3], 30), ([4], 40), ([5], 50)]).blocks.length = (3 - 1) * 2 + 0 + 1 ∧
+    locateOrdGen 2 3 (fun g => if g = 2 then 0 else 1)
+      (fun id => ((build 0 [(([1] : Key), 10), ([2], 20), ([3], 30), ([4], 40), ([5], 50)]).blocks.map (·.firstOrd)).getD id 0) 2
+      = (build 0 [(([1] : Key), 10), ([2], 20), ([3], 30), ([4], 40), ([5], 50)]).locateOrd 2 := by decide
+
+/-- the deviation of the reported ordinals is one-sided: every ordinal an automaton search reports
+is at most the true ordinal of its key (entries of pruned blocks are simply not counted) — for
+every automaton with sound `can_match`, sorted map, block length and bounds. With
+`C15_search_ordinal_counterexample` (strictly smaller after a pruned block) this pins down the
+known finding C15:search-stream-term-ord-after-pruned-block. -/
+theorem C15_search_ordinals_le {σ V} (A : Automaton σ) (hA : A.CanMatchSound) (blockLen : Nat)
+    (m : Assoc V) (hs : SortedMap m) (lo hi : Bound) :
+    ∀ p ∈ (build blockLen m).search A lo hi,
+      p.1 ≤ ordOf (keys m) p.2.1 ∧ termOrd m p.2.1 = some (ordOf (keys m) p.2.1) := by
+  intro p hp
+  refine ⟨search_ord_le A hA blockLen m hs lo hi p hp, ?_⟩
+  have hmem : (p.2.1, p.2.2) ∈ search A m lo hi := by
+    rw [← (C15_automaton_stream A hA blockLen m hs lo hi).1]
+    exact List.mem_map.mpr ⟨p, hp, rfl⟩
+  have hk : p.2.1 ∈ keys m := by
+    unfold search range at hmem
+    exact List.mem_map.mpr ⟨_, (List.mem_filter.mp (List.mem_filter.mp hmem).1).1, rfl⟩
+  rw [termOrd_eq_keys]
+  exact (findIdx_ordOf (keys m) p.2.1 hs hk).1
+
+/-- the same inside a file: whatever bytes follow the store block (the next store blocks), `get`
+returns the same addresses — the 8-byte window of `extract_bits` may reach into them, its mask cuts
+them off, and the reader's bounds check only gets easier -/
+theorem C15_store_block_get_tail (rs rb os ob : Nat) (ref : BlockAddr) (more : List BlockAddr)
+    (lastStop : Nat) (g : GroupFits rs rb os ob ref more lastStop) (rest : List UInt8) (i : Nat)
+    (hi : i ≤ more.length) :
+    (groupMeta rs rb os ob ref more).get (bitPack (groupFields rs rb os ob ref more lastStop) ++ rest) i
+      = some ⟨((ref :: more).getD i ref).firstOrd, ((ref :: more).getD i ref).start,
+              startAt more lastStop i⟩ :=
+  group_get_tail rs rb os ob ref more lastStop g rest i hi
+
+example : (groupMeta 100 5 10 3 ⟨7, 1000, 1090⟩ [⟨16, 1090, 1200⟩, ⟨27, 1200, 1310⟩]).get
+      (bitPack (groupFields 100 5 10 3 ⟨7, 1000, 1090⟩ [⟨16, 1090, 1200⟩, ⟨27, 1200, 1310⟩] 1310) ++ [255, 255, 255]) 2
+    = some ⟨27, 1200, 1310⟩ := by decide
+
+/-- the whole block-address store, bytes included: `BlockAddrStoreWriter::serialize`
+(`u64 len | 36-byte metadata records with running offsets | packed store blocks`) read by
+`BlockAddrStore::open` + `get` (`block_id / STORE_BLOCK_LEN` selects the record,
+`block_id % STORE_BLOCK_LEN` the address): every address of every store block comes back, for any
+number of store blocks — given that the deviations fit the widths (`GroupFits`) and the record
+fields fit their integer types (`MetaFits`) -/
+theorem C15_store_get (gs : List GroupSpec) (k i : Nat) (g : GroupSpec) (hk : gs[k]? = some g)
+    (hsize : META_SIZE * gs.length < 2 ^ 64)
+    (hfit : GroupFits g.rs g.rb g.os g.ob g.ref g.more g.lastStop)
+    (hmeta : MetaFits g (offsetOf gs k)) (hi : i ≤ g.more.length) (hB : i < Gen.STORE_BLOCK_LEN) :
+    (openStore (storeBytes gs)).get (k * Gen.STORE_BLOCK_LEN + i)
+      = some ⟨((g.ref :: g.more).getD i g.ref).firstOrd, ((g.ref :: g.more).getD i g.ref).start,
+              startAt g.more g.lastStop i⟩ :=
+  store_get gs k i g hk hsize hfit hmeta hi hB
+
+example : (openStore (storeBytes [⟨100, 5, 10, 3, ⟨0, 0, 90⟩, [⟨9, 90, 200⟩], 200⟩,
+      ⟨100, 5, 10, 3, ⟨20, 200, 310⟩, [⟨29, 310, 400⟩, ⟨40, 400, 500⟩], 500⟩])).get (1 * Gen.STORE_BLOCK_LEN + 2)
+    = some ⟨40, 400, 500⟩ := by decide
+
+/-- `BlockAddrStore::binary_search_ord` on the serialised store itself — store-block count taken
+from the metadata length, `block_len` parsed from each 36-byte record, first ordinals read through
+`get` from the packed bytes, the fast path on a store block's reference ordinal — returns the last
+block whose first ordinal is ≤ ord: the abstract search of `Dict.locateOrd`
+(`C15_locate_ord_dict`), for every store the writer model produces (all store blocks but the last
+full, fields fitting) with strictly increasing first ordinals -/
+theorem C15_store_locate_ord (gs : List GroupSpec) (hg : GoodStore gs) (ord : Nat)
+    (hs : (allOrds gs).Pairwise (· < ·)) (h0 : (allOrds gs).getD 0 0 ≤ ord) :
+    (openStore (storeBytes gs)).locateOrd ord
+      = ((allOrds gs).filter (fun x => decide (x ≤ ord))).length - 1 :=
+  store_locate_ord gs hg ord hs h0
+
+example : (openStore (storeBytes [⟨100, 5, 10, 3, ⟨0, 0, 90⟩, [⟨9, 90, 200⟩], 200⟩])).locateOrd 9 = 1 ∧
+    (openStore (storeBytes [⟨100, 5, 10, 3, ⟨0, 0, 90⟩, [⟨9, 90, 200⟩], 200⟩])).locateOrd 8 = 0 ∧
+    allOrds [⟨100, 5, 10, 3, ⟨0, 0, 90⟩, [⟨9, 90, 200⟩], 200⟩] = [0, 9] := by decide
 
 /-! ## insertion order (DESIGN §8, F6) -/
 
